@@ -34,6 +34,9 @@ class Sort:
     def describe(self):
         return f"{type(self).__name__}({self.name})"
 
+    def dm(self, vals):
+        return ca.DM(vals)
+
 
 def _col(vals):
     return [[v] for v in vals]
@@ -330,3 +333,87 @@ class PiConst(Sort):
 
     def sample(self, rng):
         return [[math.pi]]
+
+
+class LowerTri(Sort):
+    """n x n lower-triangular symbolic matrix with structural zeros above the diagonal
+    (ca.SX.sym(name, Sparsity.lower(n))), as cyecca.util requires for square-root factors.
+    diag_positive: requires diag > 0 (invertible factor with positive diagonal)."""
+
+    def __init__(self, name, n, diag_positive=True, scale=1.0):
+        self.name, self.n, self.shape, self.diag_positive, self.scale = name, n, (n, n), diag_positive, scale
+
+    def sx(self):
+        if not hasattr(self, "_sx"):
+            self._sx = ca.SX.sym(self.name, ca.Sparsity.lower(self.n))
+        return self._sx
+
+    def bind(self, low):
+        R = low.R
+        out = {}
+        R.positive = getattr(R, "positive", set())
+        for j in range(self.n):
+            for i in range(j, self.n):
+                d = i == j and self.diag_positive
+                p = R.gen(f"{self.name}_{i}_{j}", nonneg=d)
+                if d:
+                    R.positive.add(R.index[f"{self.name}_{i}_{j}"])
+                out[(self.name, i, j)] = Frac.of(R, p)
+        return out
+
+    def sample(self, rng):
+        return [[(rng.uniform(0.5, 1.5) if i == j else rng.uniform(-self.scale, self.scale)) if j <= i else 0.0 for j in range(self.n)]
+                for i in range(self.n)]
+
+    def dm(self, vals):
+        D = ca.DM(ca.Sparsity.lower(self.n))
+        for j in range(self.n):
+            for i in range(j, self.n):
+                D[i, j] = vals[i][j]
+        return D
+
+    def describe(self):
+        return f"LowerTri({self.name}, {self.n})" + (" [requires diag > 0]" if self.diag_positive else "")
+
+
+class Sym(Sort):
+    """symmetric n x n matrix (dense symbol, entries (i,j) and (j,i) bound to the same atom)"""
+
+    def __init__(self, name, n, spd_sample=True):
+        self.name, self.n, self.shape, self.spd_sample = name, n, (n, n), spd_sample
+
+    def bind(self, low):
+        R = low.R
+        out = {}
+        for i in range(self.n):
+            for j in range(i + 1):
+                v = Frac.of(R, R.gen(f"{self.name}_{i}_{j}"))
+                out[(self.name, i, j)] = v
+                out[(self.name, j, i)] = v
+        return out
+
+    def sample(self, rng):
+        n = self.n
+        A = [[rng.uniform(-1, 1) for _ in range(n)] for _ in range(n)]
+        # A A^T + I : symmetric positive definite
+        return [[sum(A[i][k] * A[j][k] for k in range(n)) + (1.0 if i == j else 0.0) for j in range(n)] for i in range(n)]
+
+
+class Nilpotent(Free):
+    """a scalar eps with eps^(order+1) = 0 in the ring: an identity then means that the Taylor coefficients
+    in eps agree through `order` (both sides polynomial in eps).  Sampled small for numeric replay."""
+
+    def __init__(self, name, order, scale=0.02):
+        super().__init__(name, 1, 1, scale)
+        self.order = order
+
+    def bind(self, low):
+        out = super().bind(low)
+        R = low.R
+        (v,) = out.values()
+        (i,) = v.num.vars()
+        R.add_relation(i, self.order + 1, R.const(0))
+        return out
+
+    def describe(self):
+        return f"Nilpotent({self.name}^{self.order + 1} = 0) [Taylor coefficients through order {self.order}]"
